@@ -143,8 +143,8 @@ def find_jpeg_delimiters(the_bytes: bytes) -> List[Tuple[int, int]]:
         end_block = the_bytes.find(end_pattern, next_location)
         if end_block == -1:
             raise ValueError('The new jpeg block {} does not contain the jpeg end delimiter'.format(len(out)))
+        out.append((next_location, end_block + 2))
         next_location = end_block + 2
-        out.append((0, next_location))
     return out
 
 
